@@ -14,6 +14,7 @@ var impls = map[string]func(string) string{
 	"asmconc.accept": implAsmConcAccept,
 	"idx.decode":     implIdxDecode,
 	"idx.encode":     implIdxEncode,
+	"istore.ops":     implIstoreOps,
 	"chunk.all":      implChunkAll,
 	"chunk.buffered": implChunkBuffered,
 	"chunk.disc":     implChunkDisc,
